@@ -23,7 +23,7 @@ mkdir -p $ddir; cp $demo $ddir/seeded_demo.rs
 log=/verif/seeded/$id/verify.log; : > $log
 echo "== without the change: demonstration" >> $log
 cargo test --offline -p $dpkg $dfeat --test seeded_demo >> $log 2>&1; c=$?
-git apply -3 $p 2>>$log || { echo "PATCH DOES NOT APPLY" >> $log; cd /; git -C /repo worktree remove --force $wt; exit 8; }
+{ git apply $p 2>>$log || { git reset -q --hard HEAD; git apply -3 $p 2>>$log; }; } || { echo "PATCH DOES NOT APPLY" >> $log; cd /; git -C /repo worktree remove --force $wt; exit 8; }
 git reset -q 2>/dev/null
 echo "== with the change: demonstration" >> $log
 cargo test --offline -p $dpkg $dfeat --test seeded_demo >> $log 2>&1; b=$?
